@@ -657,7 +657,7 @@ GROUP_INVS = ["GrpGrammar", "RouteOK", "NewGroupOK", "ExpiryOK", "TermOK", "Sile
 
 
 # small models: JVM start-up and JIT dominate - keep the JVM cheap when the box is shared
-LIGHT_JVM = {"JAVA_TOOL_OPTIONS": "-XX:TieredStopAtLevel=1 -XX:ParallelGCThreads=2 -XX:CICompilerCount=1"}
+LIGHT_JVM = {"JAVA_TOOL_OPTIONS": "-XX:TieredStopAtLevel=1"}
 
 
 def export_runs(ck, module: str, invs: List[str], runs: List[Tuple[str, Dict[str, Any]]], par: int = 4,
